@@ -180,10 +180,16 @@ func (r *Run) opDeviceToken(st Step) {
 		return
 	}
 	faulted := r.anyFault()
+	if val == dc.Val {
+		r.reconverged(g, "C16", dc.Name(), res, "GetDeviceCodeSession")
+	}
 	if val != dc.Val {
 		if tokens {
 			r.violate("C06", "tampered-accepted", "dc", "a mutated device code (%s) was exchanged for tokens", st.p("mutate"))
 			r.violate("C16", "forged-device-code-accepted", st.p("mutate"), "a device code with a forged part (%s) was exchanged for tokens: device codes must be unguessable", st.p("mutate"))
+		}
+		if faulted {
+			g.Unspec = true
 		}
 		r.resync(g, "a mutated device code was presented")
 		return
@@ -215,7 +221,11 @@ func (r *Run) opDeviceToken(st Step) {
 			r.taint(g)
 			return
 		}
-		if r.W.Store.Contract && !faulted {
+		if faulted {
+			g.Unspec = true // the replay handling itself met a failure: how far the revocation got is unknowable
+			return
+		}
+		if r.W.Store.Contract {
 			// "where the store reports it as already used the tokens issued from it are revoked"
 			r.probe("device-replay-contract-store")
 			r.L.KillFamily(g, "C16")
@@ -545,9 +555,12 @@ func (r *Run) opAuthorizePAR(st Step) {
 		return
 	}
 	if faulted {
-		pc.Unspec = true
 		if started {
+			// an authorization STARTED from this request_uri: whatever failed on the way, it has been used once (C17: at most one)
 			r.L.Kill(pc, Spent, "C17")
+			r.probe("par-started-despite-fault")
+		} else {
+			pc.Unspec = true
 		}
 		return
 	}
@@ -598,9 +611,11 @@ func (r *Run) opAuthorizePAR(st Step) {
 			g.Nonce = q.Get("nonce")
 		case "code_challenge", "code_challenge_method", "prompt", "audience", "scope":
 			g.Unspec = true
+			g.Vague = true
 		}
 	}
 	if pushedRedirect == "" && q.Get("redirect_uri") != "" {
+		g.Vague = true
 		g.Unspec = true // the pushed request relied on the single registered URI; a redirect_uri added in the query is not an override of a pushed value: unspecified
 	}
 	// authoritative: redirect target, state, scope, response type/mode are the pushed ones
@@ -803,6 +818,12 @@ func (r *Run) opRotateGlobal(st Step) {
 		}
 	}
 	r.shortSecret = len(k.Secret) < 32
+	r.shortRotated = false
+	for _, s := range k.RotatedSecrets {
+		if len(s) < 32 {
+			r.shortRotated = true // a too-short secret left in the rotated list aborts validation when it is tried before the right one
+		}
+	}
 	r.W.Cfg.GlobalSecret = []byte(k.Secret)
 	r.W.Cfg.RotatedGlobalSecrets = nil
 	for _, s := range k.RotatedSecrets {
@@ -821,7 +842,7 @@ func (r *Run) opRotateGlobal(st Step) {
 			c.Extra["minted_under"] = cur
 		}
 		if strings.Count(c.Val, ".") == 1 && c.State == Live { // opaque HMAC credential
-			if r.shortSecret {
+			if r.shortSecret || r.shortRotated {
 				c.Unspec = true // a too-short current secret is refused; what still validates under the rotated list is not pinned down
 			} else if !valid[c.Extra["minted_under"]] {
 				r.L.Kill(c, Dead, "C06")
